@@ -724,4 +724,509 @@ theorem bad_hex_exponent_reported (u : Uni) (k : BadHexFloat) (hk : k.WF) (rest 
   unfold trySubLexers
   rw [h1]
 
+/-! ### several `x` after the `0` of a hexadecimal floating constant -/
+
+theorem isXl_facts (u : Uni) {c : Char} (hc : c = 'x' ∨ c = 'X') :
+    (c == 'x' || c == 'X') = true ∧ (Generated.hexadecimalDigits.toList ++ ['.']).contains c = false := by
+  rcases hc with rfl | rfl <;> exact ⟨by decide, by decide⟩
+
+/-- `str.strip(hexadecimal digits + ".")` of `0xx…<mantissa>` is the run of `x` -/
+theorem strip_multx (xs mant : List Char) (hne : xs ≠ []) (hxs : ∀ c ∈ xs, c = 'x' ∨ c = 'X')
+    (hm : ∀ c ∈ mant, (Generated.hexadecimalDigits.toList ++ ['.']).contains c = true) :
+    stripChars (Generated.hexadecimalDigits.toList ++ ['.']) ('0' :: (xs ++ mant)) = xs := by
+  have h0 : (Generated.hexadecimalDigits.toList ++ ['.']).contains '0' = true := by decide
+  obtain ⟨x0, xt, rfl⟩ : ∃ x0 xt, xs = x0 :: xt := by
+    cases xs with
+    | nil => exact absurd rfl hne
+    | cons a b => exact ⟨a, b, rfl⟩
+  have hx0 := (isXl_facts {} (hxs x0 (by simp))).2
+  unfold stripChars
+  have e1 : ('0' :: (x0 :: xt ++ mant)).dropWhile (Generated.hexadecimalDigits.toList ++ ['.']).contains = x0 :: xt ++ mant := by
+    simp only [List.cons_append, List.dropWhile_cons, h0, hx0, ↓reduceIte, Bool.false_eq_true]
+  rw [e1]
+  have e2 : (x0 :: xt ++ mant).reverse = mant.reverse ++ (x0 :: xt).reverse := by simp
+  rw [e2]
+  have e3 : (mant.reverse ++ (x0 :: xt).reverse).dropWhile (Generated.hexadecimalDigits.toList ++ ['.']).contains = (x0 :: xt).reverse := by
+    apply dropWhile_app
+    · intro c hc; exact hm c (List.mem_reverse.mp hc)
+    · intro c hc
+      have hmem : c ∈ (x0 :: xt).reverse := List.mem_of_mem_head? hc
+      exact (isXl_facts {} (hxs c (List.mem_reverse.mp hmem))).2
+  rw [e3]; simp
+
+/-- the float parser on `0`, at least two `x`, a mantissa, a well-formed exponent group and suffix -/
+theorem floatLogic_multx (u : Uni) (line col : Nat) (xs mant E H L rest : List Char) (hxs2 : 2 ≤ xs.length)
+    (hxs : ∀ c ∈ xs, c = 'x' ∨ c = 'X')
+    (hmant : hexMantissa u (mant ++ (E ++ (H ++ (L ++ rest)))) = some (mant, E ++ (H ++ (L ++ rest))))
+    (hme : matchExp isP u.isH (tailHex u) (E ++ (H ++ (L ++ rest))) = E ++ H)
+    (hsuf : floatSuffix u (L ++ rest) = L)
+    (hmh : ∀ c, (mant ++ (E ++ (H ++ (L ++ rest)))).head? = some c → (c == 'x' || c == 'X') = false)
+    (hmantb : ∀ c ∈ mant, (Generated.hexadecimalDigits.toList ++ ['.']).contains c = true)
+    (hEne : (E ++ H).isEmpty = false) :
+    floatLogic u line col ('0' :: (xs ++ (mant ++ (E ++ (H ++ (L ++ rest)))))) =
+      .tok ⟨.hexadecimal, '0' :: (xs ++ mant), E ++ H, L⟩
+        (some (mkDiag "MULTIPLE_X" .error [⟨line, col + 1, some xs.length, none⟩])) := by
+  obtain ⟨x0, xt, rfl⟩ : ∃ x0 xt, xs = x0 :: xt := by
+    cases xs with
+    | nil => simp at hxs2
+    | cons a b => exact ⟨a, b, rfl⟩
+  have hx0 := hxs x0 (by simp)
+  obtain ⟨x1, x2, x3, x4, x5, x6⟩ := x_facts u hx0
+  have h0 : u.isD '0' = true := by rw [isD_ascii u (by decide)]; decide
+  generalize htl : xt ++ (mant ++ (E ++ (H ++ (L ++ rest)))) = tl
+  have hsrc : '0' :: (x0 :: xt ++ (mant ++ (E ++ (H ++ (L ++ rest))))) = '0' :: x0 :: tl := by simp [← htl]
+  have htwD : ('0' :: x0 :: tl).takeWhile u.isD = ['0'] := by
+    simp only [List.takeWhile_cons, h0, x1, ↓reduceIte, Bool.false_eq_true]
+  have hdwD : ('0' :: x0 :: tl).dropWhile u.isD = x0 :: tl := by
+    simp only [List.dropWhile_cons, h0, x1, ↓reduceIte, Bool.false_eq_true]
+  have hm1 : matchFloatExp u ('0' :: x0 :: tl) = none := by
+    unfold matchFloatExp spanP
+    simp only [htwD, hdwD]
+    have : matchExp isE u.isD (tailDec u) (x0 :: tl) = [] :=
+      matchExp_nil (by intro c hc; simp at hc; subst hc; exact x3)
+    simp [this]
+  have hm2 : matchFloatFrac u ('0' :: x0 :: tl) = none := by
+    unfold matchFloatFrac spanP
+    simp only [htwD, hdwD]
+    split
+    · rfl
+    · rename_i c r hc
+      split at hc
+      · rename_i r' heq
+        simp only [List.cons.injEq] at heq
+        exact absurd heq.1 x4
+      · cases hc
+  have hm3 : matchFloatHex u ('0' :: x0 :: tl) =
+      some ⟨.hexadecimal, '0' :: (x0 :: xt ++ mant), E ++ H, L⟩ := by
+    unfold matchFloatHex
+    simp only
+    have tx : (x0 :: tl).takeWhile (fun c => c == 'x' || c == 'X') = x0 :: xt := by
+      rw [← htl]
+      have := takeWhile_app (p := fun c => c == 'x' || c == 'X') (s := x0 :: xt) (rest := mant ++ (E ++ (H ++ (L ++ rest))))
+        (by intro c hc; exact (isXl_facts u (hxs c hc)).1) hmh
+      simpa using this
+    have dx : (x0 :: tl).dropWhile (fun c => c == 'x' || c == 'X') = mant ++ (E ++ (H ++ (L ++ rest))) := by
+      rw [← htl]
+      have := dropWhile_app (p := fun c => c == 'x' || c == 'X') (s := x0 :: xt) (rest := mant ++ (E ++ (H ++ (L ++ rest))))
+        (by intro c hc; exact (isXl_facts u (hxs c hc)).1) hmh
+      simpa using this
+    rw [tx, dx, hmant]
+    simp only [hme]
+    have : (E ++ (H ++ (L ++ rest))).drop (E ++ H).length = L ++ rest := by
+      rw [← List.append_assoc]; simp
+    rw [this, hsuf]
+    simp
+  rw [hsrc]
+  unfold floatLogic
+  simp only [hm1, hm2, hm3]
+  have hstrip := strip_multx (x0 :: xt) mant (by simp) hxs hmantb
+  have hnot : ((x0 :: xt) == ['x'] || (x0 :: xt) == ['X']) = false := by
+    cases xt with
+    | nil => simp at hxs2
+    | cons a b => simp
+  simp only [List.cons_append] at hstrip
+  have hxt : xt ≠ [] := by
+    intro e; subst e; simp at hxs2
+  simp [hEne, hstrip, hnot]
+  intro h
+  exact absurd (h (Or.inr hxt)).2 hxt
+
+/-- the members of the family: a well-formed hexadecimal floating constant with further `x`/`X` after its `0x` -/
+def multXRender (k : HexFloat) (extra : List Char) : List Char :=
+  '0' :: k.x :: (extra ++ (k.mant ++ (k.exp.render ++ k.sfx.toList)))
+
+theorem floatLogic_multx_valid (u : Uni) (k : HexFloat) (hk : k.WF) (extra : List Char) (hne : extra ≠ [])
+    (hextra : ∀ c ∈ extra, c = 'x' ∨ c = 'X') (rest : List Char) (hb : boundaryOK rest) (line col : Nat) :
+    ∃ m, floatLogic u line col (multXRender k extra ++ rest) =
+        .tok m (some (mkDiag "MULTIPLE_X" .error [⟨line, col + 1, some (extra.length + 1), none⟩])) ∧
+      m.const ++ m.exp ++ m.suf = multXRender k extra := by
+  obtain ⟨hx, hip, hfr, hexp, hs⟩ := hk
+  obtain ⟨sp1, sp2, sp3, sp4, sp5, sp6⟩ := sfxSplit_spec k.sfx hs
+  generalize (sfxSplit k.sfx).1 = H at sp1 sp2
+  generalize (sfxSplit k.sfx).2 = L at sp1 sp3 sp4 sp5 sp6
+  have hnotH : ∀ c ∈ wordChars, c ∉ hexDigits → u.isH c = false := by
+    intro c hw hn
+    obtain ⟨h128, _⟩ := word_tbl c hw
+    rw [isH_ascii u h128]
+    have : ∀ c ∈ wordChars, c ∉ hexDigits → (isAsciiDigit c || hexLetters.contains c) = false := by decide
+    exact this c hw hn
+  have hLH : ∀ c, (L ++ rest).head? = some c → u.isH c = false := by
+    intro c hc
+    cases hL : L with
+    | nil =>
+      rw [hL] at hc; simp only [List.nil_append] at hc
+      exact (boundary_head u hb c hc).2.2.1
+    | cons d tl =>
+      rw [hL] at hc; simp only [List.cons_append, List.head?_cons, Option.some.injEq] at hc
+      subst hc
+      obtain ⟨h1, h2⟩ := sp3 d (by rw [hL]; rfl)
+      exact hnotH d h2 h1
+  have hme := matchBinExp_valid u k.exp hexp H (L ++ rest) sp2 hLH (tailHex u)
+  have hsuf : floatSuffix u (L ++ rest) = L := by
+    unfold floatSuffix
+    apply takeWhile_app
+    · intro c hc; simp [word_facts u (sp6 c hc)]
+    · intro c hc
+      obtain ⟨h1, _, _, _, _, h6, _⟩ := boundary_head u hb c hc
+      simp [h1, h6]
+  have hEhead : ∀ c, (k.exp.render ++ (H ++ (L ++ rest))).head? = some c → u.isH c = false ∧ c ≠ '.' := by
+    intro c hc
+    simp only [BinExp.render, List.cons_append, List.head?_cons, Option.some.injEq] at hc
+    subst hc
+    rcases hexp.1 with h | h <;> rw [h]
+    · exact ⟨by rw [isH_ascii u (by decide)]; decide, by decide⟩
+    · exact ⟨by rw [isH_ascii u (by decide)]; decide, by decide⟩
+  have hmant := hexMantissa_valid u k.ip k.frac (k.exp.render ++ (H ++ (L ++ rest))) hip hfr hEhead
+  have hmh : ∀ c, (k.mant ++ (k.exp.render ++ (H ++ (L ++ rest)))).head? = some c → (c == 'x' || c == 'X') = false := by
+    intro c hc
+    unfold HexFloat.mant at hc
+    cases hipl : k.ip with
+    | cons a as =>
+      rw [hipl] at hc; simp at hc; subst hc
+      exact (hexbucket a (hip a (by rw [hipl]; simp))).2.1
+    | nil =>
+      rw [hipl] at hc
+      cases hfrac : k.frac with
+      | some fp => rw [hfrac] at hc; simp [fracText] at hc; subst hc; decide
+      | none => rw [hfrac] at hfr; simp only [fracOK] at hfr; exact absurd hipl hfr
+  have hmantb : ∀ c ∈ k.mant, (Generated.hexadecimalDigits.toList ++ ['.']).contains c = true := by
+    intro c hc
+    unfold HexFloat.mant at hc
+    rcases List.mem_append.mp hc with h | h
+    · exact (hexbucket c (hip c h)).1
+    · cases hfrac : k.frac with
+      | none => rw [hfrac] at h; simp [fracText] at h
+      | some fp =>
+        rw [hfrac] at h hfr
+        simp only [fracOK] at hfr
+        simp only [fracText] at h
+        rcases List.mem_cons.mp h with rfl | h
+        · decide
+        · exact (hexbucket c (hfr.1 c h)).1
+  have hxs : ∀ c ∈ k.x :: extra, c = 'x' ∨ c = 'X' := by
+    intro c hc
+    rcases List.mem_cons.mp hc with rfl | hc
+    · exact hx
+    · exact hextra c hc
+  have hlen2 : 2 ≤ (k.x :: extra).length := by
+    cases extra with
+    | nil => exact absurd rfl hne
+    | cons a b => simp
+  have hcore := floatLogic_multx u line col (k.x :: extra) k.mant k.exp.render H L rest hlen2 hxs hmant hme hsuf hmh hmantb
+    (by simp [BinExp.render])
+  have hsrc : multXRender k extra ++ rest = '0' :: ((k.x :: extra) ++ (k.mant ++ (k.exp.render ++ (H ++ (L ++ rest))))) := by
+    simp [multXRender, ← sp1, List.append_assoc]
+  refine ⟨⟨.hexadecimal, '0' :: ((k.x :: extra) ++ k.mant), k.exp.render ++ H, L⟩, ?_, ?_⟩
+  · rw [hsrc, hcore]; simp
+  · simp [multXRender, ← sp1, List.append_assoc]
+
+theorem multX_plain (k : HexFloat) (hk : k.WF) (extra : List Char) (hextra : ∀ c ∈ extra, c = 'x' ∨ c = 'X') :
+    ∀ c ∈ multXRender k extra, plainChar c := by
+  have hp := hexFloat_plain k hk
+  intro c hc
+  simp only [multXRender, List.mem_cons, List.mem_append] at hc
+  rcases hc with rfl | rfl | hc | hc
+  · unfold plainChar; decide
+  · exact hp _ (by simp [HexFloat.render])
+  · rcases hextra c hc with rfl | rfl <;> (unfold plainChar; decide)
+  · exact hp c (by simp only [HexFloat.render, List.mem_cons, List.mem_append]; right; right; exact hc)
+
+/-- **Malformed family "several x"**: a well-formed hexadecimal floating constant with one or more further `x`/`X`
+after its `0x` — `0xx1p3`, `0xX.8p-1f` —: one CONSTANT token spanning everything and exactly one diagnostic added,
+MULTIPLE_X over the run of `x`. -/
+theorem multiple_x_reported (u : Uni) (k : HexFloat) (hk : k.WF) (extra : List Char) (hne : extra ≠ [])
+    (hextra : ∀ c ∈ extra, c = 'x' ∨ c = 'X') (rest : List Char) (hb : boundaryOK rest)
+    (s : LexSt) (hr : s.rest = multXRender k extra ++ rest) :
+    ∃ s' t, trySubLexers u s = .ok (some (s', t)) ∧ t.type = "CONSTANT" ∧
+      t.value = some (String.ofList (multXRender k extra)) ∧ t.line = s.line ∧ t.col = s.col ∧
+      s'.rest = rest ∧
+      s'.diags = s.diags ++ [mkDiag "MULTIPLE_X" .error [⟨s.line, s.col + 1, some (extra.length + 1), none⟩]] := by
+  obtain ⟨m, hfl, hm⟩ := floatLogic_multx_valid u k hk extra hne hextra rest hb s.line s.col
+  have hlen : m.const.length + m.exp.length + m.suf.length = (multXRender k extra).length := by
+    rw [← hm]; simp [List.length_append]; omega
+  let d := mkDiag "MULTIPLE_X" .error [⟨s.line, s.col + 1, some (extra.length + 1), none⟩]
+  obtain ⟨n1, n2, n3⟩ := popN_plain (multXRender k extra) rest (s.addDiag d) hr (multX_plain k hk extra hextra)
+  have hpf : ∃ s', parseFloat u s = some (s', mkTok "CONSTANT" s s' (some (multXRender k extra))) ∧ s'.rest = rest ∧
+      s'.diags = s.diags ++ [d] := by
+    unfold parseFloat
+    rw [hr]
+    have hkr : multXRender k extra ++ rest = '0' :: (k.x :: (extra ++ (k.mant ++ (k.exp.render ++ k.sfx.toList))) ++ rest) := by
+      simp [multXRender]
+    rw [hkr]
+    simp only
+    rw [← hkr, hfl]
+    simp only [LexSt.addDiag?, hlen]
+    cases hpn : popN (multXRender k extra).length (s.addDiag d) with
+    | mk s2 r2 =>
+      rw [hpn] at n1 n2 n3
+      simp only at n1 n2 n3
+      subst n1
+      exact ⟨s2, rfl, n2, by rw [n3]; rfl⟩
+  obtain ⟨s', h1, h2, h3⟩ := hpf
+  refine ⟨s', mkTok "CONSTANT" s s' (some (multXRender k extra)), ?_, rfl, rfl, rfl, rfl, h2, h3⟩
+  unfold trySubLexers
+  rw [h1]
+
+/-! ### floating constants with a suffix that is not in the tool's table -/
+
+/-- shape of an unknown floating suffix: letters, digits and underscores, not starting with a digit or an exponent letter -/
+def fsfxShape (s : List Char) : Bool :=
+  s.all (fun c => wordChars.contains c) && (match s with | c :: _ => !("0123456789eE".toList.contains c) | [] => false)
+
+theorem fsfx_head_tbl : ∀ c ∈ wordChars, "0123456789eE".toList.contains c = false →
+    c ∉ decDigits ∧ isE c = false ∧ c ≠ '.' ∧ c ≠ '+' ∧ c ≠ '-' := by decide
+
+theorem fsfxShape_facts {s : List Char} (h : fsfxShape s = true) :
+    (∀ c ∈ s, c ∈ wordChars) ∧ ∃ d tl, s = d :: tl ∧ d ∉ decDigits ∧ isE d = false ∧ d ≠ '.' ∧ d ≠ '+' ∧ d ≠ '-' := by
+  unfold fsfxShape at h
+  simp only [Bool.and_eq_true, List.all_eq_true] at h
+  obtain ⟨h1, h2⟩ := h
+  have hw : ∀ c ∈ s, c ∈ wordChars := fun c hc => by simpa using h1 c hc
+  refine ⟨hw, ?_⟩
+  cases s with
+  | nil => simp at h2
+  | cons d tl =>
+    simp only [Bool.not_eq_true'] at h2
+    exact ⟨d, tl, rfl, fsfx_head_tbl d (hw d (by simp)) h2⟩
+
+theorem after_float_gen (u : Uni) {sfx : List Char} (hs : fsfxShape sfx = true) {rest : List Char} (hb : boundaryOK rest) :
+    ∀ c, (sfx ++ rest).head? = some c →
+      u.isD c = false ∧ isE c = false ∧ c ≠ '.' ∧ c ≠ '+' ∧ c ≠ '-' := by
+  intro c hc
+  obtain ⟨hw, d, tl, rfl, hd1, hd2, hd3, hd4, hd5⟩ := fsfxShape_facts hs
+  simp only [List.cons_append, List.head?_cons, Option.some.injEq] at hc
+  subst hc
+  refine ⟨?_, hd2, hd3, hd4, hd5⟩
+  have hwd := hw d (by simp)
+  have h128 := (word_tbl d hwd).1
+  rw [isD_ascii u h128]
+  cases h : isAsciiDigit d
+  · rfl
+  · exact absurd (by unfold isAsciiDigit at h; simpa [decDigits_eq] using h) hd1
+
+theorem floatSuffix_gen (u : Uni) {sfx : List Char} (hw : ∀ c ∈ sfx, c ∈ wordChars) {rest : List Char}
+    (hb : boundaryOK rest) : floatSuffix u (sfx ++ rest) = sfx := by
+  unfold floatSuffix
+  apply takeWhile_app
+  · intro c hc; simp [word_facts u (hw c hc)]
+  · intro c hc
+    obtain ⟨h1, _, _, _, _, h6, _⟩ := boundary_head u hb c hc
+    simp [h1, h6]
+
+def Spec.DecFloat.sfxText : DecFloat → List Char
+  | .exp _ _ s => s.toList
+  | .frac _ _ _ s => s.toList
+
+/-- a well-formed decimal floating constant, except that its suffix is a suffix-shaped text the tool's table does not hold -/
+def Spec.DecFloat.BadSfx : DecFloat → Prop
+  | .exp ip x sfx => ip ≠ [] ∧ (∀ c ∈ ip, c ∈ decDigits) ∧ x.WF ∧ fsfxShape sfx.toList = true ∧
+      Generated.floatSuffixes.contains sfx = false
+  | .frac ip fp x sfx => (ip ≠ [] ∨ fp ≠ []) ∧ (∀ c ∈ ip, c ∈ decDigits) ∧ (∀ c ∈ fp, c ∈ decDigits) ∧
+      (∀ y, x = some y → y.WF) ∧ fsfxShape sfx.toList = true ∧ Generated.floatSuffixes.contains sfx = false
+
+theorem floatLogic_dec_badsfx (u : Uni) (k : DecFloat) (hk : k.BadSfx) (rest : List Char) (hb : boundaryOK rest)
+    (line col : Nat) :
+    ∃ m, floatLogic u line col (k.render ++ rest) = .tok m (some (mkDiag "BAD_FLOAT_SUFFIX" .error
+        [⟨line, col + m.const.length + m.exp.length, some m.suf.length, none⟩])) ∧ m.const ++ m.exp ++ m.suf = k.render ∧
+      m.suf = k.sfxText := by
+  cases k with
+  | exp ip x sfx =>
+    obtain ⟨hipne, hip, hx, hs, hnot⟩ := hk
+    have hw := (fsfxShape_facts hs).1
+    have haf := after_float_gen u hs hb
+    have hxe : isE x.e = true := by rcases hx.1 with h | h <;> rw [h] <;> decide
+    have hxd : u.isD x.e = false := by
+      have : x.e ∈ wordChars ∧ isAsciiDigit x.e = false := by rcases hx.1 with h | h <;> rw [h] <;> decide
+      rw [isD_ascii u (word_tbl _ this.1).1]; exact this.2
+    have hipD : ∀ c ∈ ip, u.isD c = true := fun c hc => (dec_facts u (hip c hc)).1
+    have hsrc : DecFloat.render (.exp ip x sfx) ++ rest = ip ++ (x.render ++ (sfx.toList ++ rest)) := by
+      simp [DecFloat.render, List.append_assoc]
+    have hhead : ∀ c, (x.render ++ (sfx.toList ++ rest)).head? = some c → u.isD c = false := by
+      intro c hc; simp [ExpPart.render] at hc; subst hc; exact hxd
+    have htw : (ip ++ (x.render ++ (sfx.toList ++ rest))).takeWhile u.isD = ip := takeWhile_app hipD hhead
+    have hdw : (ip ++ (x.render ++ (sfx.toList ++ rest))).dropWhile u.isD = x.render ++ (sfx.toList ++ rest) :=
+      dropWhile_app hipD hhead
+    have hme := matchExp_valid u x hx (sfx.toList ++ rest) (fun c hc => (haf c hc).1) (tailDec u)
+    have hm : matchFloatExp u (ip ++ (x.render ++ (sfx.toList ++ rest))) =
+        some ⟨.exponent, ip, x.render, sfx.toList⟩ := by
+      unfold matchFloatExp spanP
+      simp only [htw, hdw, hme]
+      have h1 : ip.isEmpty = false := by cases ip with | nil => exact absurd rfl hipne | cons a b => rfl
+      have h2 : x.render.isEmpty = false := by simp [ExpPart.render]
+      simp only [h1, h2, Bool.false_eq_true, ↓reduceIte, List.drop_left', floatSuffix_gen u hw hb]
+    refine ⟨⟨.exponent, ip, x.render, sfx.toList⟩, ?_, by simp [DecFloat.render, List.append_assoc], rfl⟩
+    rw [hsrc]
+    unfold floatLogic
+    simp only [hm]
+    have hge := goodExponent_valid u x hx
+    have hcnt : ip.count '.' = 0 := count_dot_digits ip hip
+    have hsf' : ¬ sfx ∈ Generated.floatSuffixes := by simpa using hnot
+    simp [hge, hcnt, hsf']
+  | frac ip fp x sfx =>
+    obtain ⟨hne, hip, hfp, hxw, hs, hnot⟩ := hk
+    have hw := (fsfxShape_facts hs).1
+    have haf := after_float_gen u hs hb
+    have hipD : ∀ c ∈ ip, u.isD c = true := fun c hc => (dec_facts u (hip c hc)).1
+    have hfpD : ∀ c ∈ fp, u.isD c = true := fun c hc => (dec_facts u (hfp c hc)).1
+    -- X = the rendered exponent part (possibly empty); its head, if any, is no digit
+    let X : List Char := ExpPart.renderOpt x
+    have hXhead : ∀ c, (X ++ (sfx.toList ++ rest)).head? = some c → u.isD c = false := by
+      intro c hc
+      cases hx : x with
+      | none => simp only [X, hx, ExpPart.renderOpt, List.nil_append] at hc; exact (haf c hc).1
+      | some y =>
+        simp only [X, hx, ExpPart.renderOpt, ExpPart.render, List.cons_append, List.head?_cons, Option.some.injEq] at hc
+        subst hc
+        have hy := hxw y hx
+        have : y.e ∈ wordChars ∧ isAsciiDigit y.e = false := by rcases hy.1 with h | h <;> rw [h] <;> decide
+        rw [isD_ascii u (word_tbl _ this.1).1]; exact this.2
+    have hsrc : DecFloat.render (.frac ip fp x sfx) ++ rest = ip ++ ('.' :: (fp ++ (X ++ (sfx.toList ++ rest)))) := by
+      simp [DecFloat.render, X, List.append_assoc]
+    have hdot : ∀ c, ('.' :: (fp ++ (X ++ (sfx.toList ++ rest)))).head? = some c → u.isD c = false := by
+      intro c hc; simp at hc; subst hc
+      rw [isD_ascii u (by decide)]; decide
+    have htw : (ip ++ ('.' :: (fp ++ (X ++ (sfx.toList ++ rest))))).takeWhile u.isD = ip := takeWhile_app hipD hdot
+    have hdw : (ip ++ ('.' :: (fp ++ (X ++ (sfx.toList ++ rest))))).dropWhile u.isD = '.' :: (fp ++ (X ++ (sfx.toList ++ rest))) :=
+      dropWhile_app hipD hdot
+    have hfs : (fp ++ (X ++ (sfx.toList ++ rest))).takeWhile u.isD = fp := takeWhile_app hfpD hXhead
+    -- the exponent group on X ++ sfx ++ rest
+    have hme : matchExp isE u.isD (tailDec u) (X ++ (sfx.toList ++ rest)) = X := by
+      cases hx : x with
+      | none =>
+        simp only [X, hx, ExpPart.renderOpt, List.nil_append]
+        unfold matchExp spanP
+        have : (sfx.toList ++ rest).takeWhile isE = [] := by
+          cases hl : sfx.toList ++ rest with
+          | nil => rfl
+          | cons c tl =>
+            have := (haf c (by rw [hl]; rfl)).2.1
+            simp [List.takeWhile, this]
+        simp [this]
+      | some y =>
+        simp only [X, hx, ExpPart.renderOpt]
+        exact matchExp_valid u y (hxw y hx) (sfx.toList ++ rest) (fun c hc => (haf c hc).1) (tailDec u)
+    -- the exponent pattern does not apply (a dot follows the digits, or there are no digits)
+    have hm1 : matchFloatExp u (ip ++ ('.' :: (fp ++ (X ++ (sfx.toList ++ rest))))) = none := by
+      unfold matchFloatExp spanP
+      simp only [htw, hdw]
+      split
+      · rfl
+      · have : matchExp isE u.isD (tailDec u) ('.' :: (fp ++ (X ++ (sfx.toList ++ rest)))) = [] := by
+          unfold matchExp spanP
+          simp [List.takeWhile, isE_facts.2.2.2.2.2]
+        simp [this]
+    let c := if fp.isEmpty then ip ++ ['.'] else ip ++ '.' :: fp
+    have hm2 : matchFloatFrac u (ip ++ ('.' :: (fp ++ (X ++ (sfx.toList ++ rest))))) =
+        some ⟨.fractional, ip ++ '.' :: fp, X, sfx.toList⟩ := by
+      unfold matchFloatFrac spanP
+      simp only [htw, hdw, hfs]
+      cases hfe : fp with
+      | nil =>
+        have hipne : ip.isEmpty = false := by
+          rcases hne with h | h
+          · cases ip with | nil => exact absurd rfl h | cons a b => rfl
+          · exact absurd hfe h
+        simp only [List.isEmpty_nil, Bool.not_true, Bool.false_eq_true, ↓reduceIte, hipne, Bool.not_false,
+          List.nil_append]
+        simp [hme, floatSuffix_gen u hw hb]
+      | cons f0 fs =>
+        simp only [List.isEmpty_cons, Bool.not_false, ↓reduceIte]
+        have hdrop : (f0 :: fs ++ (X ++ (sfx.toList ++ rest))).drop (f0 :: fs).length = X ++ (sfx.toList ++ rest) := by
+          simp
+        rw [hdrop]
+        simp only [hme, List.drop_left', floatSuffix_gen u hw hb]
+    refine ⟨⟨.fractional, ip ++ '.' :: fp, X, sfx.toList⟩, ?_, by simp [DecFloat.render, X, List.append_assoc], rfl⟩
+    rw [hsrc]
+    unfold floatLogic
+    simp only [hm1, hm2]
+    have hsd : sfx.toList.count '.' = 0 := by
+      apply List.count_eq_zero.mpr
+      intro hm
+      have := hw '.' hm
+      revert this; decide
+    have hsf' : ¬ sfx ∈ Generated.floatSuffixes := by simpa using hnot
+    have hgx : ¬ X = [] → goodExponent u X = true := by
+      intro hX
+      cases hx : x with
+      | none => simp [X, hx, ExpPart.renderOpt] at hX
+      | some y =>
+        have := goodExponent_valid u y (hxw y hx)
+        simpa [X, hx, ExpPart.renderOpt] using this
+    simp [hsf', hsd]
+    intro hX hbad
+    rw [hgx hX] at hbad; cases hbad
+
+
+theorem decFloat_badsfx_plain (k : DecFloat) (hk : k.BadSfx) : ∀ c ∈ k.render, plainChar c := by
+  cases k with
+  | exp ip x sfx =>
+    obtain ⟨_, hip, hx, hs, _⟩ := hk
+    have hw := (fsfxShape_facts hs).1
+    intro c hc
+    simp only [DecFloat.render, List.mem_append] at hc
+    rcases hc with (hc | hc) | hc
+    · exact plain_of_word (dec_sub_word c (hip c hc))
+    · exact expPart_plain x hx c hc
+    · exact plain_of_word (hw c hc)
+  | frac ip fp x sfx =>
+    obtain ⟨_, hip, hfp, hxw, hs, _⟩ := hk
+    have hw := (fsfxShape_facts hs).1
+    intro c hc
+    simp only [DecFloat.render, List.mem_append, List.mem_cons] at hc
+    rcases hc with ((hc | rfl | hc) | hc) | hc
+    · exact plain_of_word (dec_sub_word c (hip c hc))
+    · unfold plainChar; decide
+    · exact plain_of_word (dec_sub_word c (hfp c hc))
+    · cases hx : x with
+      | none => rw [hx] at hc; simp [ExpPart.renderOpt] at hc
+      | some y => rw [hx] at hc; exact expPart_plain y (hxw y hx) c hc
+    · exact plain_of_word (hw c hc)
+
+/-- **Malformed family "unknown suffix", floating constants**: a well-formed decimal floating constant whose suffix is
+replaced by a suffix-shaped text that the tool's own table does not hold (`1.5x`, `2e3ff`, `.5_t`): one CONSTANT token
+spanning everything and exactly one diagnostic added, BAD_FLOAT_SUFFIX on the suffix. (The tool's table is a superset of
+the standard's — `d`, `df`, `fi` … —, so "unknown" is relative to the regenerated table.) -/
+theorem bad_float_suffix_reported (u : Uni) (k : DecFloat) (hk : k.BadSfx) (rest : List Char) (hb : boundaryOK rest)
+    (s : LexSt) (hr : s.rest = k.render ++ rest) :
+    ∃ s' t off, trySubLexers u s = .ok (some (s', t)) ∧ t.type = "CONSTANT" ∧
+      t.value = some (String.ofList k.render) ∧ t.line = s.line ∧ t.col = s.col ∧ s'.rest = rest ∧
+      off + k.sfxText.length = k.render.length ∧
+      s'.diags = s.diags ++ [mkDiag "BAD_FLOAT_SUFFIX" .error [⟨s.line, s.col + off, some k.sfxText.length, none⟩]] := by
+  obtain ⟨m, hfl, hm, hsuf⟩ := floatLogic_dec_badsfx u k hk rest hb s.line s.col
+  have hlen : m.const.length + m.exp.length + m.suf.length = k.render.length := by
+    rw [← hm]; simp [List.length_append]; omega
+  let d := mkDiag "BAD_FLOAT_SUFFIX" .error [⟨s.line, s.col + m.const.length + m.exp.length, some m.suf.length, none⟩]
+  obtain ⟨n1, n2, n3⟩ := popN_plain k.render rest (s.addDiag d) hr (decFloat_badsfx_plain k hk)
+  have hne : k.render ≠ [] := by
+    cases k with
+    | exp ip x sfx => simp [DecFloat.render, ExpPart.render]
+    | frac ip fp x sfx => simp [DecFloat.render]
+  have hpf : ∃ s', parseFloat u s = some (s', mkTok "CONSTANT" s s' (some k.render)) ∧ s'.rest = rest ∧ s'.diags = s.diags ++ [d] := by
+    unfold parseFloat
+    rw [hr]
+    cases hkr : k.render ++ rest with
+    | nil =>
+      exfalso
+      have := congrArg List.length hkr
+      simp only [List.length_append, List.length_nil] at this
+      have : k.render.length = 0 := by omega
+      exact hne (List.eq_nil_of_length_eq_zero this)
+    | cons c0 tl0 =>
+      simp only
+      rw [← hkr, hfl]
+      simp only [LexSt.addDiag?, hlen]
+      cases hpn : popN k.render.length (s.addDiag d) with
+      | mk s2 r2 =>
+        rw [hpn] at n1 n2 n3
+        simp only at n1 n2 n3
+        subst n1
+        exact ⟨s2, rfl, n2, by rw [n3]; rfl⟩
+  obtain ⟨s', h1, h2, h3⟩ := hpf
+  refine ⟨s', mkTok "CONSTANT" s s' (some k.render), m.const.length + m.exp.length, ?_, rfl, rfl, rfl, rfl, h2, ?_, ?_⟩
+  · unfold trySubLexers
+    rw [h1]
+  · rw [← hsuf]; omega
+  · rw [h3, ← hsuf]
+    simp only [d, Nat.add_assoc]
+
 end Norm
